@@ -504,4 +504,90 @@ theorem absCapture_decode_take8 (raw : Bytes) (h : 8 ≤ raw.length) (h' : raw.l
   have h4 : min 8 raw.length < 16 := by omega
   simp [absCaptureSpec, parse, List.take_take, List.length_take, h1, h', h3, h4]
 
+/-- a statement about the specification alone (the model is only the witness): decoding the layout of an
+    exactly representable value gives the value -/
+theorem Verified.spec_roundtrip (V : Verified c S) (v : σ) (hr : S.inRange v = true) (he : S.exact v = true) :
+    S.decode (render (S.layout v)) = some v := by
+  have h1 := V.roundtrip v v hr he
+  cases hd : S.decode (render (S.layout v)) with
+  | none => have := V.rejects_short v _ hd; rw [h1] at this; simp [Res.isErr] at this
+  | some w => have := V.decodes v _ w hd; rw [h1] at this; simp at this; rw [this]
+
+/-! ### the specification's `render` and `parse` are inverse to each other -/
+
+theorem pack_lt (fs : List Field) : pack fs < 2 ^ width fs := by
+  induction fs with
+  | nil => simp [pack, width]
+  | cons f r ih =>
+    obtain ⟨w, v⟩ := f
+    simp only [pack, width]
+    have h1 : v % 2 ^ w < 2 ^ w := Nat.mod_lt _ (Nat.two_pow_pos w)
+    calc v % 2 ^ w * 2 ^ width r + pack r < v % 2 ^ w * 2 ^ width r + 2 ^ width r := by omega
+      _ = (v % 2 ^ w + 1) * 2 ^ width r := by rw [Nat.add_mul, Nat.one_mul]
+      _ ≤ 2 ^ w * 2 ^ width r := Nat.mul_le_mul_right _ h1
+      _ = 2 ^ (w + width r) := by rw [Nat.pow_add]
+
+theorem foldl_widths (ws : List Nat) (a : Nat) : ws.foldl (· + ·) a = a + ws.foldl (· + ·) 0 := by
+  induction ws generalizing a with
+  | nil => simp
+  | cons w r ih => simp only [List.foldl]; rw [ih, ih (0 + w)]; omega
+
+theorem widths_sum (fs : List Field) : (fs.map (·.1)).foldl (· + ·) 0 = width fs := by
+  induction fs with
+  | nil => rfl
+  | cons f r ih =>
+    obtain ⟨w, v⟩ := f
+    simp only [List.map, List.foldl, width]
+    rw [foldl_widths, ih]; omega
+
+/-- bits above the fields being read do not matter -/
+theorem split_add (a p W : Nat) (ws : List Nat) (h : ws.foldl (· + ·) 0 ≤ W) :
+    split (a * 2 ^ W + p) W ws = split p W ws := by
+  induction ws generalizing W a with
+  | nil => rfl
+  | cons w r ih =>
+    simp only [List.foldl] at h
+    rw [foldl_widths] at h
+    simp only [split]
+    have hw : w ≤ W := by omega
+    congr 1
+    · have e : a * 2 ^ W = (a * 2 ^ w) * 2 ^ (W - w) := by
+        rw [Nat.mul_assoc, ← Nat.pow_add]; congr 2; omega
+      rw [e, Nat.mul_comm _ (2 ^ (W - w)), Nat.mul_add_div (Nat.two_pow_pos _), Nat.mul_comm a, Nat.mul_add_mod]
+    · -- the remaining fields live in the low W - w bits
+      have e : a * 2 ^ W + p = (a * 2 ^ w) * 2 ^ (W - w) + p := by
+        rw [Nat.mul_assoc, ← Nat.pow_add]; congr 3; omega
+      rw [e]
+      exact ih (W := W - w) (a := a * 2 ^ w) (by omega)
+
+theorem split_pack (fs : List Field) (hwf : ∀ f ∈ fs, f.2 < 2 ^ f.1) :
+    split (pack fs) (width fs) (fs.map (·.1)) = fs.map (·.2) := by
+  induction fs with
+  | nil => rfl
+  | cons f r ih =>
+    obtain ⟨w, v⟩ := f
+    have hv : v < 2 ^ w := hwf (w, v) (List.mem_cons_self ..)
+    simp only [List.map, split, pack, width, Nat.add_sub_cancel_left, Nat.mod_eq_of_lt hv]
+    congr 1
+    · have := pack_lt r
+      rw [Nat.mul_comm, Nat.mul_add_div (Nat.two_pow_pos _), Nat.div_eq_of_lt this, Nat.add_zero,
+        Nat.mod_eq_of_lt hv]
+    · have hsum : (r.map (·.1)).foldl (· + ·) 0 ≤ width r := by rw [widths_sum]; exact Nat.le_refl _
+      rw [split_add v (pack r) (width r) _ hsum]
+      exact ih (fun f hf => hwf f (List.mem_cons_of_mem _ hf))
+
+/-- reading back a rendered layout (followed by any trailing bytes) gives the field values -/
+theorem parse_render (fs : List Field) (hwf : ∀ f ∈ fs, f.2 < 2 ^ f.1) (h8 : width fs % 8 = 0) (trail : Bytes) :
+    parse (fs.map (·.1)) (render fs ++ trail) = fs.map (·.2) := by
+  unfold parse render
+  simp only [widths_sum]
+  have hlen : (bytesBE (width fs / 8) (pack fs)).length = width fs / 8 := bytesBE_length _ _
+  rw [List.take_left' hlen, natBE_bytesBE]
+  have hp : pack fs < 256 ^ (width fs / 8) := by
+    have := pack_lt fs
+    have e : 256 ^ (width fs / 8) = 2 ^ width fs := by
+      rw [show (256 : Nat) = 2 ^ 8 from rfl, ← Nat.pow_mul]; congr 1; omega
+    rw [e]; exact this
+  rw [Nat.mod_eq_of_lt hp]
+  exact split_pack fs hwf
 end Rtp.Proofs.Ext
